@@ -1,4 +1,5 @@
-import Brax.Lemmas.C02Pipe
+import Brax.Lemmas.C02Compose
+import Brax.Props.C01
 /-!
 # C02 — generalized-pipeline dynamics terms equal the reference engine
 
@@ -116,14 +117,22 @@ theorem passive_free (l : LinkIn ℝ) (h : l.typ = .free) :
   unfold MjD.passive
   rw [h]
 
+/-- **`actuator.to_tau` equals the Spec's `qfrc_actuator`** (scatter-add of `gear·clip(gain·clip(u)
++ bias)` = per-dof gather with `length = gear·q`, `velocity = gear·q̇`), for actuators that address
+existing coordinates (`Sys.WF`).  The actuator property in its own right is C11. -/
+theorem tau_eq (s : Sys ℝ) (q qd act : List ℝ)
+    (hacts : ∀ a ∈ s.acts, a.qId < q.length ∧ a.qdId < qd.length ∧ a.qdId < s.nv) :
+    toTau s.nv s.acts act q qd = (MjD.forwardData s q qd act).qfrcActuator :=
+  toTau_eq_actuation s.nv s.acts act q qd hacts
+
 /-- **`dynamics.forward`: `qf_smooth = passive − bias + tau` equals MuJoCo's `qfrc_smooth`**
-whenever the bias force and the actuator force do. -/
+whenever the bias force does (`rne_eq_mj` reduces that to the CoM-frame quantities). -/
 theorem forward_eq (s : Sys ℝ) (st : DynState ℝ) (q qd act : List ℝ)
     (hbias : biasFlat s st q qd = (MjD.forwardData s q qd act).qfrcBias)
-    (htau : toTau s.nv s.acts act q qd = (MjD.forwardData s q qd act).qfrcActuator) :
+    (hacts : ∀ a ∈ s.acts, a.qId < q.length ∧ a.qdId < qd.length ∧ a.qdId < s.nv) :
     qfSmooth s st q qd act = (MjD.forwardData s q qd act).qfrcSmooth := by
   unfold qfSmooth
-  rw [hbias, htau, passive_eq s q qd act]
+  rw [hbias, tau_eq s q qd act hacts, passive_eq s q qd act]
   rfl
 
 /-! ## semi-implicit Euler with implicit joint damping -/
@@ -218,12 +227,6 @@ theorem cdof_eq_mj (p : Int) (par' : Option (Tf ℝ)) (hpar : ∀ t, par' = some
   unfold cdofLink
   rw [hlocal, hfree]
   simp only [List.map_nil, List.nil_append, Tf.doTf, hok.jointRot, quatMul_one]
-
-/-- the dof rows `mjcf.load_model` writes for a free joint: three world translations, then three
-body-frame rotations -/
-def freeBasis : List (Motion ℝ) :=
-  [⟨V3.zero, ⟨1, 0, 0⟩⟩, ⟨V3.zero, ⟨0, 1, 0⟩⟩, ⟨V3.zero, ⟨0, 0, 1⟩⟩,
-   ⟨⟨1, 0, 0⟩, V3.zero⟩, ⟨⟨0, 1, 0⟩, V3.zero⟩, ⟨⟨0, 0, 1⟩, V3.zero⟩]
 
 /-- **`cdof` of a free link equals MuJoCo's**: translations `[0 ; e_k]` stay in the world frame
 (this is the clause the `fix:` for D2 must not touch), rotations are
@@ -323,13 +326,38 @@ theorem cdofd_eq_free (c0 c1 c2 c3 c4 c5 : Motion ℝ) (v0 v1 v2 v3 v4 v5 : ℝ)
       = (MjD.comVelBody .free Motion.zero [c0, c1, c2, c3, c4, c5] [v0, v1, v2, v3, v4, v5]).1 := by
   rw [comVelBody_free]
 
-/- `cdofd_eq_sysStmt` (NOT proved; the gap is Layer-B bookkeeping only):
-   `(transformCom s x q qd).cdofd = (MjD.forwardData s q qd ctrl).cdofDot` whenever `cdof` agrees.
-   The model computes `cdofd` *after* the scan from `cd.take(parent_idx)`, the Spec inside the
-   scan from the running parent value; identifying the two needs the pointwise characterisation
-   `(scanFwd f ps as)[i] = f (… [parent i]) as[i]` threaded through `parentIdx`/`takeParent`.
-   Per link the statement is `cdofd_eq` / `cdofd_eq_free` above; the composition is tied by the
-   correspondence (`cdofd` vs `cdof_dot` on every case, both legs). -/
+/-- **whole-system `cdofd` equals MuJoCo's `cdof_dot`** whenever `cdof` does: `transform_com`
+computes `cdofd` *after* the tree scan from `cd.take(parent_idx)`, `mj_comVel` inside its body
+loop from the running parent velocity; the pointwise characterisation of the scan
+(`scanFwd_lookup`) identifies the two — every forest with parents before children. -/
+theorem cdofd_eq_sys (s : Sys ℝ) (x : List (Tf ℝ)) (q qd ctrl : List ℝ)
+    (hcdof : (transformCom s x q qd).cdof = (MjD.forwardData s q qd ctrl).cdof)
+    (hps : s.parents.length = s.types.length)
+    (hlen : (MjD.forwardData s q qd ctrl).cdof.length = s.types.length)
+    (hwf : PWF s.parents) (hlow : ∀ i : Nat, -1 ≤ s.parents.getD i (-1))
+    (hok : ∀ y ∈ s.parents.zip ((linkSlices s.types q qd s.dofs).zip (MjD.forwardData s q qd ctrl).cdof),
+      CdOK y.1 y.2.1 y.2.2) :
+    (transformCom s x q qd).cdofd = (MjD.forwardData s q qd ctrl).cdofDot := by
+  have h1 : (transformCom s x q qd).cdofd
+      = List.zipWith (fun (lp : LinkIn ℝ × Int) (cc : List (Motion ℝ) × List (Motion ℝ)) =>
+          cdofdLink lp.1.typ
+            (takeParent (scanFwd cdStep s.parents
+              (List.zipWith (fun cs (l : LinkIn ℝ) => List.zipWith mulr cs l.qd)
+                (transformCom s x q qd).cdof (linkSlices s.types q qd s.dofs))) Motion.zero lp.2)
+            cc.1 cc.2)
+        ((linkSlices s.types q qd s.dofs).zip (parentIdx s.types s.parents))
+        ((transformCom s x q qd).cdof.zip
+          (List.zipWith (fun cs (l : LinkIn ℝ) => List.zipWith mulr cs l.qd)
+            (transformCom s x q qd).cdof (linkSlices s.types q qd s.dofs))) := rfl
+  have h2 : (MjD.forwardData s q qd ctrl).cdofDot
+      = (scanFwd comVelStep s.parents
+          ((linkSlices s.types q qd s.dofs).zip (MjD.forwardData s q qd ctrl).cdof)).map Prod.fst := rfl
+  rw [h1, h2, hcdof]
+  have hp : parentIdx s.types s.parents
+      = parentIdx ((linkSlices s.types q qd s.dofs).map (·.typ)) s.parents := by
+    rw [linkSlices_typ]
+  rw [hp]
+  exact cdofd_sys s.parents _ _ s.types.length hps (linkSlices_length _ _ _ _) hlen hwf hlow hok
 
 /-! ## the CoM-frame inertia -/
 
@@ -424,6 +452,111 @@ theorem pipeline_massMatrix_spd (s : Sys ℝ) (h : PhysOK s) (q qd : List ℝ) (
   · intro hX
     exact massMatrix_posDef_of_armature _ _ _ _ X hps hI h.wf hsym hpsd harm hX
 
+/-! ## the whole system: every dynamics term equals the reference engine's -/
+
+/-- what the property's generator produces (and `Sys.WF` + `mjcf.load_model` guarantee): consistent
+shapes, parents before children, `C01.KinOK` (unit body quaternions, identity joint frames, unit
+hinge/slide axes, free links are roots with unit root quaternion), the standard dof rows on free
+joints -/
+structure DynOK (s : Sys ℝ) (q qd : List ℝ) : Prop where
+  parents : s.parents.length = s.types.length
+  links : s.links.length = s.types.length
+  wf : PWF s.parents
+  low : ∀ i : Nat, -1 ≤ s.parents.getD i (-1)
+  kin : C01.KinOK s q qd
+  basis : ∀ l ∈ linkSlices s.types q qd s.dofs, l.typ = .free → l.dofs.map (·.motion) = freeBasis
+
+/-- **Model = Spec for every CoM-frame quantity, the bias force and the total smooth force**, for
+every `DynOK` system and state — composing C01's `forward_pos_eq_mj` (link poses), `cdof_eq_mj`
+(+ free), `cd_eq`, `cdofd_eq_sys`, `cinr_eq`, `rne_eq_mj`, `passive_eq`, `tau_eq`, `forward_eq`.
+The one link that is **not** proved is the per-tree centre of mass (`hcom`: `segment_sum` over the
+root index = `subtree_com[rootid]`), which is tied by both correspondence legs on every run;
+`hfree6` is the shape fact that a free link is a root with six dof rows. -/
+theorem dynamics_eq_mj (s : Sys ℝ) (q qd ctrl : List ℝ) (h : DynOK s q qd)
+    (hcom : (dynInit s q qd).com.rootCom = (MjD.forwardData s q qd ctrl).rootCom)
+    (hfree6 : ∀ y ∈ s.parents.zip ((linkSlices s.types q qd s.dofs).zip (MjD.forwardData s q qd ctrl).cdof),
+      CdOK y.1 y.2.1 y.2.2)
+    (hacts : ∀ a ∈ s.acts, a.qId < q.length ∧ a.qdId < qd.length ∧ a.qdId < s.nv) :
+    (dynInit s q qd).com.cdof = (MjD.forwardData s q qd ctrl).cdof
+    ∧ (dynInit s q qd).com.cd = (MjD.forwardData s q qd ctrl).cvel
+    ∧ (dynInit s q qd).com.cdofd = (MjD.forwardData s q qd ctrl).cdofDot
+    ∧ List.Forall₂ SameInertia (dynInit s q qd).com.cinr (MjD.forwardData s q qd ctrl).cinert
+    ∧ biasFlat s (dynInit s q qd) q qd = (MjD.forwardData s q qd ctrl).qfrcBias
+    ∧ qfSmooth s (dynInit s q qd) q qd ctrl = (MjD.forwardData s q qd ctrl).qfrcSmooth := by
+  set x := (Kin.forward s q qd).map (·.1) with hxdef
+  set ins := linkSlices s.types q qd s.dofs with hins
+  set kin := scanFwd kinStep s.parents (s.links.zip ins) with hkin
+  have hxpose : (MjD.forwardData s q qd ctrl).xpose = kin.map Prod.fst := rfl
+  have hx : x = kin.map Prod.fst := by
+    rw [← hxpose, xpose_eq_kinematics]
+    exact C01.forward_pos_eq_mj s q qd h.kin
+  have hst : (dynInit s q qd).com = transformCom s x q qd := rfl
+  rw [hst] at hcom ⊢
+  have hinsLen : ins.length = s.types.length := linkSlices_length _ _ _ _
+  have htyp : ins.map (·.typ) = s.types := linkSlices_typ _ _ _ _
+  -- (1) cdof
+  have hcdof : (transformCom s x q qd).cdof = (MjD.forwardData s q qd ctrl).cdof := by
+    have h1 : (transformCom s x q qd).cdof
+        = List.zipWith (fun (l : LinkIn ℝ) (jc : Tf ℝ × V3 ℝ) => cdofLink l jc.1 jc.2) ins
+            (((s.links.zip (parentIdx s.types s.parents)).map fun lp =>
+                Tf.doTf (Tf.doTf (takeParent x Tf.id lp.2) lp.1.tf) lp.1.joint).zip
+              (transformCom s x q qd).rootCom) := rfl
+    have h2 : (MjD.forwardData s q qd ctrl).cdof
+        = List.zipWith (fun (lk : LinkIn ℝ × (Tf ℝ × List (MjD.JointW ℝ))) (c : V3 ℝ) =>
+            MjD.cdofBody lk.1 lk.2.1 lk.2.2 c) (ins.zip kin) (MjD.forwardData s q qd ctrl).rootCom := rfl
+    rw [h1, h2, ← hcom, hx, ← htyp]
+    have hcomLen : (transformCom s (kin.map Prod.fst) q qd).rootCom.length = s.types.length := by
+      have : (transformCom s (kin.map Prod.fst) q qd).rootCom
+          = rootCom s.parents (s.links.map (·.inertia.mass))
+              (List.zipWith (fun (t : Tf ℝ) (lk : LinkP ℝ) => Tf.doTf t lk.inertia.tf) (kin.map Prod.fst) s.links) := rfl
+      rw [this, rootCom_length, h.parents]
+    rw [← hx] at hcomLen ⊢
+    rw [hx]
+    refine cdof_sys s.parents s.links ins _ s.types.length h.parents h.links hinsLen
+      (by rw [← hx]; exact hcomLen) h.wf h.low ?_
+    intro p lk l hmem
+    have hok : LinkOK p lk l := h.kin (p, lk, l) hmem
+    constructor
+    · intro hnf par' c hpar
+      exact cdof_eq_mj p par' (fun t ht => kin_unit s.parents s.links ins h.kin t (hpar t ht)) lk l hok hnf c
+    · intro hf pose c
+      have hl : l ∈ ins := (List.of_mem_zip (List.of_mem_zip hmem).2).2
+      exact cdof_eq_mj_free p lk l hok hf (h.basis l hl hf) pose c
+  -- (2) cd, (3) cdofd
+  have hcd := cd_eq s x q qd ctrl hcdof hfree6
+  have hlenD : (MjD.forwardData s q qd ctrl).cdof.length = s.types.length := by
+    rw [← hcdof]
+    have hxl : x.length = s.types.length := by
+      rw [hxdef, List.length_map]; exact forward_length s q qd h.parents h.links
+    exact (transformCom_lengths s x q qd hxl h.parents h.links).2
+  have hcdofd := cdofd_eq_sys s x q qd ctrl hcdof h.parents hlenD h.wf h.low hfree6
+  -- (4) cinr
+  have hcinr : List.Forall₂ SameInertia (transformCom s x q qd).cinr (MjD.forwardData s q qd ctrl).cinert := by
+    have h1 : (transformCom s x q qd).cinr
+        = List.zipWith (fun (tc : Tf ℝ × V3 ℝ) (lk : LinkP ℝ) => cinrLink tc.1 tc.2 lk.inertia)
+            ((List.zipWith (fun (t : Tf ℝ) (lk : LinkP ℝ) => Tf.doTf t lk.inertia.tf) x s.links).zip
+              (transformCom s x q qd).rootCom) s.links := rfl
+    have h2 : (MjD.forwardData s q qd ctrl).cinert
+        = List.zipWith (fun (pq : V3 ℝ × Q4 ℝ) (lc : LinkP ℝ × V3 ℝ) =>
+            MjD.inertCom pq.2 lc.1.inertia.i lc.1.inertia.mass (pq.1 - lc.2))
+          ((List.zipWith (fun (x : Tf ℝ) (lk : LinkP ℝ) => x.pos + rotate lk.inertia.tf.pos x.rot)
+              (MjD.forwardData s q qd ctrl).xpose s.links).zip
+            (List.zipWith (fun (x : Tf ℝ) (lk : LinkP ℝ) => quatMul x.rot lk.inertia.tf.rot)
+              (MjD.forwardData s q qd ctrl).xpose s.links))
+          (s.links.zip (MjD.forwardData s q qd ctrl).rootCom) := rfl
+    rw [h1, h2, ← hcom, hxpose, ← hx]
+    exact forall₂_cinr s.links x _
+  -- (5) bias
+  have hbias : biasFlat s (dynInit s q qd) q qd = (MjD.forwardData s q qd ctrl).qfrcBias := by
+    have h1 : biasFlat s (dynInit s q qd) q qd
+        = (inverse s.parents s.gravity (transformCom s x q qd) (ins.map (·.qd))).flatten := rfl
+    have h2 : (MjD.forwardData s q qd ctrl).qfrcBias
+        = MjD.rne s.parents s.gravity (MjD.forwardData s q qd ctrl).cinert
+            (MjD.forwardData s q qd ctrl).cvel (MjD.forwardData s q qd ctrl).cdof
+            (MjD.forwardData s q qd ctrl).cdofDot (ins.map (·.qd)) := rfl
+    rw [h1, h2, rne_eq_mj s.parents s.gravity _ _ _ hcinr, hcd, hcdof, hcdofd]
+  exact ⟨hcdof, hcd, hcdofd, hcinr, hbias, forward_eq s _ q qd ctrl hbias hacts⟩
+
 /-! ## non-vacuity -/
 
 /-- a two-link chain over ℤ (polynomial stages run at any commutative ring): hypotheses of
@@ -454,6 +587,33 @@ example : quadForm (massMatrix exPs exCinr exCdof exArm) (flatVec exCdof exX) = 
 example : rsum exCdof.length (fun k => ke (exCinr.getD k dI) (velAnc exPs exCdof exX k))
     + nsum exCdof.length (wAt exCdof) (fun l r => armAt exArm l r * (exX l r * exX l r)) = 101 := by
   decide
+
+/-- a concrete `PhysOK` system: one hinge link with unit inertia and armature 1/2 -/
+noncomputable def exPhys : Sys ℝ :=
+  { types := [.one], parents := [-1],
+    links := [⟨Tf.id, Tf.id, ⟨Tf.id, M3.one, 1⟩, 0, 0, 0, 0, 0⟩],
+    dofs := [⟨⟨⟨0, 0, 1⟩, ⟨0, 0, 0⟩⟩, 1/2, 0, 0, none, none, 0⟩],
+    hasLimit := false, acts := [], gravity := V3.zero, dt := 1, velDamping := 0, angDamping := 0,
+    baumgarteErp := 0, springMassScale := 0, springInertiaScale := 0, jointScaleAng := 0,
+    jointScalePos := 0, collideScale := 0 }
+
+example : PhysOK exPhys := by
+  refine ⟨rfl, rfl, ?_, ?_, ?_⟩
+  · intro i
+    match i with
+    | 0 => simp [exPhys]
+    | k + 1 => simp [exPhys]
+  · intro lk hlk
+    simp only [exPhys, List.mem_cons, List.mem_nil_iff, or_false] at hlk
+    subst hlk
+    refine ⟨by simp [SymmI, M3.one], ?_, by norm_num⟩
+    intro w
+    simp only [M3.mulVec, M3.one, V3.dot]
+    nlinarith [mul_self_nonneg w.x, mul_self_nonneg w.y, mul_self_nonneg w.z]
+  · intro d hd
+    simp only [exPhys, List.mem_cons, List.mem_nil_iff, or_false] at hd
+    subst hd
+    norm_num
 
 /-! ### the D2 configuration: a slide along body-z on a body rotated about y
 
